@@ -99,7 +99,10 @@ def gen(rng: random.Random, tier: str, index: int) -> dict:
     n = weighted(rng, [(rng.randint(1, 12), 2), (rng.randint(12, 200), 4), (rng.randint(200, 5000), 2)])
     style = weighted(rng, [("random", 4), ("extreme", 3), ("alternating", 2), ("dc", 1), ("sparse", 2), ("burst_then_silence", 2)])
     dtype = "int16" if kind.startswith("cs") else rng.choice(["int16", "float64", "int16"])
-    mode = weighted(rng, [("ones", 2), ("short", 3), ("around_mem", 3), ("mixed", 4), ("two", 2)])
+    # FIR-family scenarios spend half of their runs outside the open known finding (every block >= taps-1),
+    # so that the short-block defect cannot starve coverage of everything else
+    mode = weighted(rng, [("ones", 2), ("short", 3), ("around_mem", 3), ("mixed", 4), ("two", 2),
+                          ("long_blocks", 14 if kind in ("fir", "cdxtract", "cs_fir", "cs_fir_custom") else 3)])
     splits, left = [], n
     while left > 0:
         if mode == "ones":
@@ -108,6 +111,10 @@ def gen(rng: random.Random, tier: str, index: int) -> dict:
             b = rng.randint(1, max(1, mem))
         elif mode == "around_mem":
             b = max(1, mem + rng.choice([-1, 0, 0, 1, 2]))
+        elif mode == "long_blocks":
+            b = max(1, mem) + rng.choice([0, 0, 1, 2, 5, rng.randint(0, 40)])
+            if left - b < max(1, mem):
+                b = left          # never leave a short remainder
         elif mode == "two":
             b = rng.randint(1, left) if not splits else left
         else:
